@@ -5,7 +5,7 @@ from engines.purefn import run_purefn
 MODULES = ["BumpProof.Props.C12"]
 
 def run(ctx):
-    n = 15000 if ctx.quick() else 500000
+    n = 60000 if ctx.quick() else 500000
     ctx.extra["rule"] = ("size_config functions on 14 header layouts (base-allocator values of size 0..256 / align 1..256), both directions, "
                          "hints next to 0, powers of two, page multiples, isize::MAX and usize::MAX; layouts with alignments up to 2^62; "
                          "distinct_nontrivial counts distinct queries whose result is a successful computation (not none/panic)")
